@@ -187,3 +187,23 @@ Theorem C04_diagram_temps_strict : forall (tmin tc : Q) (n i j : nat), tmin < tc
   nth i (diagram_temps tmin tc n ++ [tc]) 0 < nth j (diagram_temps tmin tc n ++ [tc]) 0.
 Proof. exact diagram_temps_strict. Qed.
 Print Assumptions C04_diagram_temps_strict.
+
+(** [PhaseDiagram::pure] fails exactly when the critical point — computed with the DEFAULT solver options — fails; neither
+    that nor the closing state depends on the VLE solver or its options. *)
+Theorem C04_diagram_res_ok_iff : forall (A : Type) (solve : Q -> option A -> option A) (tmin : Q) (n : nat) (temp : A -> Q) (crit : option A),
+  diagram_res solve tmin n temp crit <> None <-> crit <> None.
+Proof. exact @diagram_res_ok_iff. Qed.
+Print Assumptions C04_diagram_res_ok_iff.
+
+Theorem C04_diagram_res_last_indep : forall (A : Type) (solve1 solve2 : Q -> option A -> option A) (tmin : Q) (n : nat) (temp : A -> Q) (c : A) (l1 l2 : list A),
+  diagram_res solve1 tmin n temp (Some c) = Some l1 -> diagram_res solve2 tmin n temp (Some c) = Some l2 ->
+  last l1 c = c /\ last l2 c = c.
+Proof. exact @diagram_res_last_indep. Qed.
+Print Assumptions C04_diagram_res_last_indep.
+
+(** The per-component helpers (vapor_pressure, boiling_temperature, vle_pure_comps): one entry per component, entry i is the
+    pure solver's result on the sub-model of component i. *)
+Theorem C04_per_component_nth : forall (M R : Type) (subset : nat -> M) (solve : M -> option R) (n i : nat), (i < n)%nat ->
+  length (per_component subset solve n) = n /\ nth i (per_component subset solve n) None = solve (subset i).
+Proof. exact @per_component_spec. Qed.
+Print Assumptions C04_per_component_nth.
